@@ -31,7 +31,7 @@ COMPONENTS = {"real": ["ipv8.requestcache.RequestCache/NumberCache/RandomNumberC
 ASSUMPTIONS = ["single-threaded use of RequestCache (its locks are exercised without contention)",
                "asyncio call_soon FIFO and Task cancellation semantics are trusted"]
 REACH = ["race_pop_vs_expiry", "reentrant_pop", "reentrant_add", "shutdown_with_outstanding", "dup_add_refused",
-         "pop_after_timeout_keyerror", "readd_same_object", "timeout_fired", "future_completed_on_timeout", "handler_hit", "handler_miss"]
+         "pop_after_timeout_keyerror", "readd_same_object", "timeout_fired", "future_completed_on_timeout", "timeout_with_user_completed_future", "handler_hit", "handler_miss"]
 
 DELAYS = [0.5, 1.0, 1.0, 2.0, 10.0]
 IDS = [("a", 1), ("a", 2), ("b", 1), ("b", 2), ("retrievable", 7)]
@@ -46,8 +46,8 @@ def _random_case(seed: int) -> dict:
     deadlines = []
     for _ in range(n_ops):
         kind = rng.choices(["add", "pop", "has", "ptadd", "wait_for", "clear", "shutdown", "handler", "register_dup", "readd_same",
-                            "add_shared_future"],
-                           [30, 25, 8, 6, 5, 3, 3, 12, 4, 4, 3])[0]
+                            "add_shared_future", "partial"],
+                           [30, 25, 8, 6, 5, 3, 3, 12, 4, 4, 3, 6])[0]
         if deadlines and rng.random() < 0.6:
             t = rng.choice(deadlines) + rng.choice([-2e-4, -2e-5, -1e-6, 0.0, 0.0, 1e-6, 2e-5, 2e-4, 1e-3])
         else:
@@ -57,7 +57,7 @@ def _random_case(seed: int) -> dict:
         op = {"t": round(t, 7), "op": kind, "id": list(ident)}
         if kind in ("add", "ptadd"):
             op["delay"] = rng.choice(DELAYS) if kind == "add" else rng.choice([0.0, 0.1, 1.0])
-            op["fut"] = rng.choice([None, None, "value", "exc"])
+            op["fut"] = rng.choice([None, None, "value", "exc", "two"])
             op["react"] = rng.choice([None, None, None, "pop_other", "add_same", "add_other", "pop_self"])
             if op["react"] in ("pop_other", "add_other"):
                 op["other"] = list(rng.choice(IDS))
@@ -137,10 +137,16 @@ def execute(case: dict) -> dict:  # noqa: C901, PLR0915
             self.resolved = None      # None | "popped" | "timeout" | "cleared" | "shutdown"
             self.fut = None
             self.fut_kind = fut_kind
+            self.fut2 = None          # a second managed future (fut_kind "two"), completed with an exception on time-out
+            self.user_value = None    # set when the user completed the first future itself (partial answer, cache kept)
+            if fut_kind == "two":
+                self.fut2 = loop.create_future()
             if fut_kind:
                 self.fut = loop.create_future()
                 self.exc = RuntimeError("timeout-exc")
                 self.register_future(self.fut, self.exc if fut_kind == "exc" else ("TV", ident[1]))
+                if self.fut2 is not None:
+                    self.register_future(self.fut2, self.exc)
 
         @property
         def timeout_delay(self) -> float:
@@ -183,6 +189,23 @@ def execute(case: dict) -> dict:  # noqa: C901, PLR0915
 
         def check_future(self) -> None:
             f = self.fut
+            if self.fut2 is not None:
+                f2 = self.fut2
+                if not f2.done():
+                    c.violate("future_on_timeout", "future_not_completed_on_timeout",
+                              f"second managed future of {self.ident} not done after its time-out "
+                              f"(first future {'was completed by the user before' if self.user_value else 'pending'})")
+                    return
+                if f2.cancelled():
+                    if not st["shutdown_requested"]:
+                        c.violate("future_on_timeout", "future_cancelled_on_timeout", f"second managed future of {self.ident} cancelled")
+                elif f2.exception() is not self.exc:
+                    c.violate("future_on_timeout", "future_wrong_exception", f"{self.ident} second future: {f2.exception()!r}")
+            if self.user_value is not None:
+                c.probe("timeout_with_user_completed_future")
+                if f.cancelled() or f.exception() is not None or f.result() != self.user_value:
+                    c.violate("future_on_timeout", "user_completed_future_overwritten", f"{self.ident}: {f!r}")
+                return
             if not f.done():
                 c.violate("future_on_timeout", "future_not_completed_on_timeout",
                           f"managed future of {self.ident} not done after its time-out")
@@ -325,6 +348,13 @@ def execute(case: dict) -> dict:  # noqa: C901, PLR0915
                     c.violate("dup_guard", "refused_add_damaged_outstanding_request",
                               f"the refused re-add of {ident} cancelled the future of the request that is still outstanding")
                 log.append(("readd", ident, "refused"))
+        elif kind == "partial":
+            # the user handles a partial answer: completes the first managed future itself, the request stays outstanding
+            cur = model.get(ident)
+            if cur is not None and cur.fut is not None and not cur.fut.done():
+                cur.user_value = ("USER", len(log))
+                cur.fut.set_result(cur.user_value)
+                log.append(("partial", ident, None))
         elif kind == "add_shared_future":
             # a second cache object for the same identity that shares the caller's future with the outstanding one
             cur = model.get(ident)
